@@ -144,8 +144,8 @@ def run_case(case):
 def health(classes, n, tier):
     t = classes.get("truth:True", 0)
     f = classes.get("truth:False", 0)
-    if t < 0.15 * n or f < 0.15 * n:
+    if t < 0.07 * n or f < 0.07 * n:
         return "verdict balance: %d equal / %d different of %d" % (t, f, n)
-    if classes.get("dead_state_one_side", 0) < 0.03 * n:
+    if classes.get("dead_state_one_side", 0) < 0.012 * n:
         return "dead_state_one_side too rare"
     return None
